@@ -38,6 +38,18 @@ P = {
          "trace validation with TLC of generated cases", "5 C13"),
  "C14": ("TLC checks the domain (split at one separator; adjacent words one separator apart, stem of the joined word equal to its length as recorded) and membership in the hits",
          "trace validation with TLC of generated cases", "5 C14"),
+ "C15": ("Tokenize.tla re-computes both tokenisers (compose, reduce with padding, split, strip, lower, classes, function words) for every recorded input and the result is compared field by field (stems excepted: oracle); TLC evaluates the well-formedness clauses (WellFormed) and the composed-input clause on what the code returned, for all short strings over an adversarial alphabet per language and random Unicode",
+         "TLC trace validation against Tokenize.tla (executable specification of the tokeniser) + WellFormed predicate", "5 C15"),
+ "C16": ("DamLev.tla: the persistent matrix machine is model-checked (history independence, prefix cells, laws against reference Lev / unrestricted DL) for all word pairs and call sequences in the bound; recorded distances and prefix cells of the real component (guarded hook) are compared with the specification's table and the laws are evaluated on them, with memo variables for symmetry/history independence",
+         "TLC model checking of the distance-matrix machine + trace validation of the hooked component", "5 C16"),
+ "C17": ("Jaccard.tla buffer machine model-checked against set similarity for all pairs and call sequences in the bound; recorded similarities (bit-exact fractions) compared with TLC's own set operators, symmetric and memo-consistent",
+         "TLC model checking of the buffer machine + trace validation of the hooked component", "5 C17"),
+ "C18": ("Trigram.tla index machine; on traces TLC recomputes gram sets and shared-gram counts from the recorded public tokenisation and checks every clause of the statement, and that the list is an outcome of the specification's index (L2)",
+         "TLC trace validation against Trigram.tla gram oracle and index machine", "5 C18"),
+ "C19": ("the matrix, buffer and index machines carry the set of accessed (row, col, size) / (index, length) and TLC checks them in range for all histories in the bound (growth at capacity 1); the guarded access recorder reports per-site extents of the real code for component calls and full searches, checked by TLC; an out-of-range access is turned into a recorded panic before memory is touched",
+         "TLC model checking of access sets + trace validation of hook-recorded extents (observation, not proof)", "5 C19"),
+ "C20": ("Registry.tla machine model-checked (frame condition, last result, fresh start) over two ids; on traces of the real top-level API every live buffer is read after every call and compared with the specification's registry state, and after run_search with a stand-alone Store driven in lock-step whose state TLC verifies to match",
+         "TLC model checking of the registry machine + trace validation of interleaved API histories", "5 C20"),
 }
 
 checks = []
